@@ -65,66 +65,200 @@ def memo_rules(ctx: Ctx, rep: Report, rid: str = "R05.1", only_class: Optional[s
             if memo is None:
                 continue
             found += 1
-            rep.instance()
-            deps = ef.self_reads(f, None) - {memo}
-            resets_needed = []
-            for g in [x for c in cls.mro for x in c.all_funcs()]:
-                if g is f or g.name == "__init__":
-                    continue
-                # an inherited accessor that the class overrides is not a writer of this class
-                own = (cls.lookup_setter(g.name) if g.kind == "setter" else cls.lookup_getter(g.name) if g.kind == "getter" else cls.lookup_method(g.name))
-                if own is not g:
-                    continue
-                direct = {t.attr for n in own_nodes(g.node) if isinstance(n, (ast.Assign, ast.AnnAssign, ast.AugAssign)) for t in (n.targets if isinstance(n, ast.Assign) else [n.target]) if isinstance(t, ast.Attribute) and src(t.value) == "self"}
-                if direct & deps:
-                    resets_needed.append((g, sorted(direct & deps)))
-            if not resets_needed:
-                rep.ok(f"{f.qualname}: memo {memo}", "no method other than __init__ writes what the memo depends on", where=where(f))
-            for g, attrs in resets_needed:
-                cfg = ctx.cfg(g)
+            # entries are what a user of the object can invoke: setters and public methods (private members are judged
+            # through the entries that call them)
+            # the memo is judged for the defining class and for every subclass that inherits the method: a subclass
+            # may add writers of what the memo depends on (Address.items setter for a memo kept by AddressBase)
+            users = [c for c in ctx.prog.classes.values() if cls in c.mro and (c.lookup_method(f.name) is f or c.lookup_getter(f.name) is f)]
+            from .c06 import _own_reads
 
-                def is_reset(n: Node) -> bool:
-                    if n.kind == "stmt" and isinstance(n.ast, (ast.Assign, ast.AnnAssign)):
+            for ucls in users:
+                rep.instance()
+                # plain attributes of the object itself that the computation reads (through its own getters/methods)
+                deps = _own_reads(ctx, f, ucls) - {memo}
+                tag = f"{f.qualname}" if ucls is cls else f"{f.qualname} (as inherited by {ucls.name})"
+                members = []
+                for g in [x for c in ucls.mro for x in c.all_funcs()]:
+                    own = (ucls.lookup_setter(g.name) if g.kind == "setter" else ucls.lookup_getter(g.name) if g.kind == "getter" else ucls.lookup_method(g.name))
+                    if own is g and g is not f and g.name != "__init__" and g.parent is None:
+                        members.append(g)
+
+                def self_callees(g: Func, n: ast.AST) -> List[Func]:
+                    """Members of the object a statement invokes: self.m(...), self.prop = v (setter), self.prop (getter)."""
+                    out = []
+                    for x in ast.walk(n):
+                        if isinstance(x, ast.Call) and isinstance(x.func, ast.Attribute) and src(x.func.value) == "self":
+                            m = ucls.lookup_method(x.func.attr)
+                            if m is not None:
+                                out.append(m)
+                        if isinstance(x, ast.Attribute) and src(x.value) == "self" and isinstance(x.ctx, ast.Store):
+                            stt = ucls.lookup_setter(x.attr)
+                            if stt is not None:
+                                out.append(stt)
+                    return out
+
+                may_write: Dict[Func, Set[str]] = {}
+
+                def writes_of(g: Func, busy: Optional[Set[int]] = None) -> Set[str]:
+                    busy = busy if busy is not None else set()
+                    if g in may_write:
+                        return may_write[g]
+                    if id(g) in busy:
+                        return set()
+                    busy.add(id(g))
+                    out = set(_direct_writes(g))
+                    for n in own_nodes(g.node):
+                        if isinstance(n, ast.stmt) and not isinstance(n, (ast.FunctionDef, ast.ClassDef)):
+                            pass
+                    for n in own_nodes(g.node):
+                        if isinstance(n, (ast.Call, ast.Attribute)):
+                            for m in self_callees(g, n) if not isinstance(n, ast.Attribute) or isinstance(n.ctx, ast.Store) else []:
+                                if m is not f:
+                                    out |= writes_of(m, busy)
+                    busy.discard(id(g))
+                    may_write[g] = out
+                    return out
+
+                must_reset: Dict[Func, bool] = {}
+
+                def resets(g: Func, busy: Optional[Set[int]] = None) -> bool:
+                    """Every normal path through g passes a statement that empties the memo (directly or in a member it invokes)."""
+                    busy = busy if busy is not None else set()
+                    if g in must_reset:
+                        return must_reset[g]
+                    if id(g) in busy:
+                        return False
+                    busy.add(id(g))
+                    cfg_g = ctx.cfg(g)
+                    ok_ = cfg_g.all_paths_pass(cfg_g.entry, cfg_g.exit, lambda n: is_reset_node(g, n, busy), labels_avoid=("exc",))
+                    busy.discard(id(g))
+                    must_reset[g] = ok_
+                    return ok_
+
+                def is_reset_node(g: Func, n: Node, busy: Optional[Set[int]] = None) -> bool:
+                    if n.kind != "stmt" or n.ast is None:
+                        return False
+                    if isinstance(n.ast, (ast.Assign, ast.AnnAssign)):
                         tg = n.ast.targets if isinstance(n.ast, ast.Assign) else [n.ast.target]
                         for t in tg:
                             if isinstance(t, ast.Attribute) and src(t.value) == "self" and t.attr == memo:
                                 v = n.ast.value
-                                return isinstance(v, ast.Constant) and not v.value or isinstance(v, (ast.List, ast.Dict, ast.Tuple, ast.Set)) and not getattr(v, "elts", getattr(v, "keys", []))
-                    if n.kind == "stmt" and isinstance(n.ast, ast.Delete):
-                        return any(isinstance(t, ast.Attribute) and t.attr == memo for t in n.ast.targets)
-                    return False
+                                if isinstance(v, ast.Constant) and not v.value or isinstance(v, (ast.List, ast.Dict, ast.Tuple, ast.Set)) and not getattr(v, "elts", getattr(v, "keys", [])):
+                                    return True
+                    if isinstance(n.ast, ast.Delete) and any(isinstance(t, ast.Attribute) and t.attr == memo for t in n.ast.targets):
+                        return True
+                    if isinstance(n.ast, ast.Expr) and isinstance(n.ast.value, ast.Call) and isinstance(n.ast.value.func, ast.Attribute) and n.ast.value.func.attr == "clear" and src(n.ast.value.func.value) == f"self.{memo}":
+                        return True
+                    return any(m is not g and m is not f and resets(m, busy) for m in self_callees(g, n.ast))
 
-                def is_dep_write(n: Node) -> bool:
-                    if n.kind == "stmt" and isinstance(n.ast, (ast.Assign, ast.AnnAssign, ast.AugAssign)):
-                        tg = n.ast.targets if isinstance(n.ast, ast.Assign) else [n.ast.target]
-                        return any(isinstance(t, ast.Attribute) and src(t.value) == "self" and t.attr in attrs for t in tg)
-                    return False
+                def is_write_node(g: Func, n: Node) -> Set[str]:
+                    if n.kind not in ("stmt", "cond", "for") or n.ast is None:
+                        return set()
+                    w = set(_direct_writes_of_stmt(n.ast)) if n.kind == "stmt" else set()
+                    for m in self_callees(g, n.ast):
+                        if m is not f:
+                            w |= writes_of(m)
+                    return w & deps
 
-                bad = None
-                for wn in [n for n in cfg.live if is_dep_write(n)]:
-                    if not cfg.all_paths_pass(wn, cfg.exit, is_reset, labels_avoid=("exc",)):
-                        bad = wn
-                        break
-                if bad is not None:
-                    rep.violation(
-                        g.qualname,
-                        f"{snippet(bad.ast)} without resetting {memo}",
-                        f"{f.qualname} memoises its result in {memo} and reads {attrs}; this writer can return without invalidating the memo: later queries describe the old line",
-                        where(g, bad.ast),
-                        inp='w = Wildcard("10.0.0.0 0.0.0.3"); w.ipnets(); w.line = "20.0.0.0 0.0.0.255"; w.ipnets()',
-                    )
-                else:
-                    rep.ok(f"{g.qualname} writes {attrs}", f"every path from the write to the normal exit resets {memo}", where=where(g))
+                # entries: what a user of the object can invoke (setters, public methods, and private members nobody calls)
+                called = {m for g in members for n in own_nodes(g.node) if isinstance(n, (ast.Call, ast.Attribute)) for m in (self_callees(g, n) if not isinstance(n, ast.Attribute) or isinstance(n.ctx, ast.Store) else [])}
+                entries = [g for g in members if g.kind == "setter" or not g.name.startswith("_")]
+                del called
+                any_writer = False
+                for g in sorted(entries, key=lambda x: x.qualname):
+                    cfg_g = ctx.cfg(g)
+                    bad = None
+                    attrs: Set[str] = set()
+                    for wn in cfg_g.live:
+                        w = is_write_node(g, wn)
+                        if not w:
+                            continue
+                        attrs |= w
+                        # a path entry -> wn -> exit without any reset
+                        before = cfg_g.reachable(cfg_g.entry, avoid=lambda n, g=g: is_reset_node(g, n), labels_avoid=("exc",))
+                        if wn not in before or is_reset_node(g, wn):
+                            continue
+                        after = cfg_g.reachable(wn, avoid=lambda n, g=g: is_reset_node(g, n), labels_avoid=("exc",))
+                        if cfg_g.exit in after:
+                            bad = wn
+                            break
+                    if not attrs:
+                        continue
+                    any_writer = True
+                    if bad is not None:
+                        rep.violation(
+                            g.qualname,
+                            f"{snippet(bad.ast)} without resetting {memo}",
+                            f"{tag} memoises its result in {memo} and reads {sorted(attrs)}; this writer can return without invalidating the memo: later queries describe the old state",
+                            where(g, bad.ast),
+                            inp='w = Wildcard("10.0.0.0 0.0.0.3"); w.ipnets(); w.line = "20.0.0.0 0.0.0.255"; w.ipnets()',
+                        )
+                    else:
+                        rep.ok(f"{g.qualname} writes {sorted(attrs)}", f"every path that changes them also resets {memo} ({tag})", where=where(g))
+                if not any_writer:
+                    rep.ok(f"{tag}: memo {memo}", "no member other than __init__ writes what the memo depends on", where=where(f))
     return found
 
 
+_MUTATORS = ("append", "extend", "insert", "remove", "pop", "clear", "sort", "reverse", "update", "add", "discard", "setdefault", "popitem")
+
+
+def _direct_writes_of_stmt(st: ast.AST) -> Set[str]:
+    """self attributes a statement (re)binds or mutates in place: self.a = ..., self.a += ..., self.a[i] = ..., self.a.append(...)."""
+    out: Set[str] = set()
+    for n in ast.walk(st):
+        if isinstance(n, (ast.Assign, ast.AnnAssign, ast.AugAssign)):
+            for t in n.targets if isinstance(n, ast.Assign) else [n.target]:
+                for e in ([t] if not isinstance(t, (ast.Tuple, ast.List)) else t.elts):
+                    while isinstance(e, ast.Subscript):
+                        e = e.value
+                    if isinstance(e, ast.Attribute) and src(e.value) == "self":
+                        out.add(e.attr)
+        if isinstance(n, ast.Call) and isinstance(n.func, ast.Attribute) and n.func.attr in _MUTATORS:
+            r = n.func.value
+            if isinstance(r, ast.Attribute) and src(r.value) == "self":
+                out.add(r.attr)
+        if isinstance(n, ast.Delete):
+            for t in n.targets:
+                while isinstance(t, ast.Subscript):
+                    t = t.value
+                if isinstance(t, ast.Attribute) and src(t.value) == "self":
+                    out.add(t.attr)
+    return out
+
+
+def _direct_writes(g: Func) -> Set[str]:
+    out: Set[str] = set()
+    for n in own_nodes(g.node):
+        if isinstance(n, ast.stmt):
+            if isinstance(n, (ast.Assign, ast.AnnAssign, ast.AugAssign, ast.Delete, ast.Expr)):
+                out |= _direct_writes_of_stmt(n)
+    return out
+
+
 def _instance_memo(f: Func) -> Optional[str]:
-    """Name of the attribute `f` uses as its own memo: returned when set, and assigned from the computed result."""
+    """Name of the attribute `f` uses as its own memo: returned (itself or a copy of it) when set, and assigned from
+    the computed result."""
     returned: Set[str] = set()
     assigned: Set[str] = set()
     for n in own_nodes(f.node):
         if isinstance(n, ast.Return) and isinstance(n.value, ast.Attribute) and src(n.value.value) == "self":
             returned.add(n.value.attr)
+        elif isinstance(n, ast.Return) and n.value is not None:
+            # list(self._m), self._m.copy(), self._m[:], tuple(self._m), dict(self._m)
+            v = n.value
+            inner = None
+            if isinstance(v, ast.Call) and isinstance(v.func, ast.Name) and v.func.id in ("list", "tuple", "dict", "set", "sorted", "frozenset") and len(v.args) == 1:
+                inner = v.args[0]
+            elif isinstance(v, ast.Call) and isinstance(v.func, ast.Attribute) and v.func.attr == "copy" and not v.args:
+                inner = v.func.value
+            elif isinstance(v, ast.Subscript) and isinstance(v.slice, ast.Slice) and v.slice.lower is None and v.slice.upper is None:
+                inner = v.value
+            if isinstance(inner, ast.Attribute) and src(inner.value) == "self":
+                # only when the function tests the attribute first (`if self._m: return list(self._m)`)
+                tested = any(isinstance(t, (ast.If, ast.IfExp)) and any(isinstance(x, ast.Attribute) and src(x) == src(inner) for x in ast.walk(t.test)) for t in own_nodes(f.node))
+                if tested:
+                    returned.add(inner.attr)
         if isinstance(n, ast.Assign):
             for t in n.targets:
                 if isinstance(t, ast.Attribute) and src(t.value) == "self":
@@ -171,6 +305,17 @@ def _hash_key(ctx: Ctx, cls: Class) -> Set[str]:
     return ctx.effects.self_reads(h, None)
 
 
+def _self_targets(st: ast.AST) -> Set[str]:
+    """self attributes bound by an assignment statement (tuple targets flattened)."""
+    out: Set[str] = set()
+    tgs = st.targets if isinstance(st, ast.Assign) else [st.target]
+    for t in tgs:
+        for e in ast.walk(t):
+            if isinstance(e, ast.Attribute) and isinstance(e.ctx, ast.Store) and src(e.value) == "self":
+                out.add(e.attr)
+    return out
+
+
 def r05_2(ctx: Ctx, rep: Report) -> None:
     rep.rule("R05.2")
     ls = ctx.func("Wildcard.line.setter")
@@ -178,9 +323,7 @@ def r05_2(ctx: Ctx, rep: Report) -> None:
     derived: Set[str] = set()
     for n in own_nodes(ls.node):
         if isinstance(n, (ast.Assign, ast.AnnAssign)):
-            for t in n.targets if isinstance(n, ast.Assign) else [n.target]:
-                if isinstance(t, ast.Attribute) and src(t.value) == "self":
-                    derived.add(t.attr)
+            derived |= _self_targets(n)
     surface = ["Wildcard.ipnets", "Wildcard.line.getter", "Wildcard.prefix.getter", "Wildcard.wildmask.getter", "Wildcard.data"]
     reads: Set[str] = set()
     for q in surface:
@@ -195,9 +338,7 @@ def r05_2(ctx: Ctx, rep: Report) -> None:
         stored = set()
         for node, lab in p.nodes:
             if node.kind == "stmt" and isinstance(node.ast, (ast.Assign, ast.AnnAssign)):
-                for t in node.ast.targets if isinstance(node.ast, ast.Assign) else [node.ast.target]:
-                    if isinstance(t, ast.Attribute) and src(t.value) == "self":
-                        stored.add(t.attr)
+                stored |= _self_targets(node.ast)
         miss = [a for a in need if a not in stored]
         if miss:
             rep.violation("Wildcard.line.setter", f"path stores {sorted(stored)}", f"a normal path of the setter leaves {miss} describing the previous line", where(ls))
@@ -216,7 +357,7 @@ def r05_3(ctx: Ctx, rep: Report) -> None:
 
     def is_store(n: Node) -> bool:
         if n.kind == "stmt" and isinstance(n.ast, (ast.Assign, ast.AnnAssign)):
-            return any(isinstance(t, ast.Attribute) and src(t.value) == "self" for t in (n.ast.targets if isinstance(n.ast, ast.Assign) else [n.ast.target]))
+            return bool(_self_targets(n.ast))
         return False
 
     stores = [n for n in cfg.live if is_store(n)]
@@ -454,6 +595,98 @@ def r05_5(ctx: Ctx, rep: Report) -> None:
     rep.floor(1, "try statements on the path from the limit check")
 
 
+def _limit_holders(ctx: Ctx) -> Set[str]:
+    """Classes whose objects carry the limit: some member of their MRO assigns self.max_ncwb / self._max_ncwb."""
+    out: Set[str] = set()
+    for cls in ctx.prog.classes.values():
+        for c in cls.mro:
+            for g in c.all_funcs():
+                if any(isinstance(n, (ast.Assign, ast.AnnAssign)) and _self_targets(n) & {"max_ncwb", "_max_ncwb"} for n in own_nodes(g.node)):
+                    out.add(cls.name)
+    return out
+
+
+def r05_6(ctx: Ctx, rep: Report) -> None:
+    """The configured limit reaches every object built on behalf of a limit holder: a construction that hands over the
+    owner's platform also hands over the owner's limit, and a child that is kept is not re-parsed under its old limit."""
+    rep.rule("R05.6")
+    holders = _limit_holders(ctx)
+    # only classes whose construction can reach the limit check (a Remark carries the attribute but never a wildcard)
+    reach_nb = ctx.cg.reaching(ctx.func("Wildcard._ncw_bits"))
+    builds = {k.name for k in ctx.prog.classes.values() if any(g in reach_nb for c in k.mro for g in c.all_funcs() if g.name == "__init__")}
+    holders = {h for h in holders if any(ctx.cls(h) in ctx.cls(k).mro for k in builds)}
+    rep.require({"Wildcard", "Address", "AddressAg", "Ace"} <= holders, f"limit holders {sorted(holders)}: the classes that carry max_ncwb changed")
+    n_sites = 0
+    for cls in ctx.prog.classes.values():
+        if cls.name not in holders:
+            continue
+        for f in cls.all_funcs():
+            if f.kind in ("staticmethod", "classmethod"):
+                continue
+            for n in own_nodes(f.node):
+                if isinstance(n, ast.Call):
+                    fn = n.func
+                    target = None
+                    if isinstance(fn, ast.Name) and fn.id in holders:
+                        target = fn.id
+                    elif src(fn) in ("self.__class__", "type(self)"):
+                        target = cls.name
+                    elif isinstance(fn, ast.Attribute) and isinstance(fn.value, ast.Name) and fn.value.id in holders and ctx.cls(fn.value.id).lookup_method(fn.attr) is not None and ctx.cls(fn.value.id).lookup_method(fn.attr).kind == "classmethod":
+                        target = fn.value.id
+                    if target is None:
+                        continue
+                    kws = {k.arg: k.value for k in n.keywords if k.arg}
+                    star = [k.value for k in n.keywords if k.arg is None]
+                    own_settings = [k for k, v in kws.items() if k in ("platform", "version") and src(v) in ("self._platform", "self.platform", "self.version", "self._version")]
+                    if not own_settings or star:
+                        continue  # not a construction on behalf of this object (or settings travel in a dict: C16/C17 key rules)
+                    n_sites += 1
+                    rep.instance()
+                    v = kws.get("max_ncwb")
+                    if v is not None and src(v) in ("self.max_ncwb", "self._max_ncwb"):
+                        rep.ok(f"{f.qualname}: {snippet(n, 50)}", "the new object receives the owner's limit", where=where(f, n))
+                    else:
+                        rep.violation(
+                            f.qualname,
+                            snippet(n),
+                            f"a {target} is built with this object's {own_settings} but without `max_ncwb=self.max_ncwb`: it checks wildcards against the default limit, not the configured one (over-limit masks are accepted or in-limit masks rejected)",
+                            where(f, n),
+                            inp='Address("group-object G", platform="ios", items=["10.0.0.0 0.0.7.7"], max_ncwb=2)  # 3 wildcard bits accepted',
+                        )
+                # a kept child re-parsed in place keeps the limit it was created with
+                if isinstance(n, ast.Assign) and len(n.targets) == 1 and isinstance(n.targets[0], ast.Attribute) and n.targets[0].attr == "line":
+                    recv = n.targets[0].value
+                    if isinstance(recv, ast.Attribute) and src(recv.value) == "self":
+                        t = ctx.types.attr_type(cls, recv.attr)
+                        from ..typeinf import classes_of
+
+                        kinds = {c.name for c in classes_of(t)} & holders
+                        const_text = isinstance(n.value, ast.Constant) and isinstance(n.value.value, str) and not any(ch.isdigit() for ch in n.value.value)
+                        if kinds and const_text:
+                            rep.ok(f"{f.qualname}: {snippet(n, 50)}", "a constant text without a mask: no limit applies", nontrivial=False, where=where(f, n))
+                        elif kinds:
+                            n_sites += 1
+                            rep.instance()
+                            cfg = ctx.cfg(f)
+                            node = cfg.node_containing(n)
+                            synced = False
+                            for m in cfg.live:
+                                if m.kind == "stmt" and isinstance(m.ast, ast.Assign) and any(isinstance(t2, ast.Attribute) and t2.attr in ("max_ncwb", "_max_ncwb") and src(t2.value) == src(recv) for t2 in m.ast.targets) and src(m.ast.value) in ("self.max_ncwb", "self._max_ncwb"):
+                                    if node is not None and cfg.dominates(m, node):
+                                        synced = True
+                            if synced:
+                                rep.ok(f"{f.qualname}: {snippet(n, 50)}", "the kept child is given the owner's current limit first", where=where(f, n))
+                            else:
+                                rep.violation(
+                                    f.qualname,
+                                    snippet(n),
+                                    f"the kept {sorted(kinds)} object is re-parsed in place: it checks the new line against the limit it was created with, not the owner's current max_ncwb",
+                                    where(f, n),
+                                    inp='a = Address("10.0.0.0 0.0.3.3", max_ncwb=16); a.max_ncwb = 1; a.line = "10.0.0.0 0.0.5.5"  # accepted',
+                                )
+    rep.floor(8, "constructions that hand over the owner's settings")
+
+
 def _always_reraises(h: ast.ExceptHandler) -> bool:
     body = [s for s in h.body if not (isinstance(s, ast.Expr) and isinstance(s.value, ast.Constant))]
     if not body:
@@ -476,3 +709,4 @@ def run(ctx: Ctx, rep: Report, tier: str) -> None:
     r05_3(ctx, rep)
     r05_4(ctx, rep)
     r05_5(ctx, rep)
+    r05_6(ctx, rep)
